@@ -91,10 +91,14 @@ type isoState struct {
 	healT   uint64
 	healSet bool
 	healIso []bool // which servers were isolated at the heal
+	// a TimeoutNow was delivered and the term has not risen since: the one election that a
+	// leadership-transfer target starts without pre-vote ("by design", raft.go runCandidate)
+	tn       []bool
+	lastTerm []uint64
 }
 
 func newIsoState(n int) *isoState {
-	return &isoState{since: make([]time.Duration, n), termAt: make([]uint64, n), armed: make([]bool, n)}
+	return &isoState{since: make([]time.Duration, n), termAt: make([]uint64, n), armed: make([]bool, n), tn: make([]bool, n), lastTerm: make([]uint64, n)}
 }
 
 // reachesQuorum: can n exchange messages in both directions with a voter majority of its
@@ -131,6 +135,15 @@ func (o *Oracle) checkIsolation(inc *Inc, term uint64) {
 	is := o.iso
 	i := inc.node.idx
 	now := w.now()
+	excused := false
+	if term > is.lastTerm[i] {
+		if is.tn[i] && term == is.lastTerm[i]+1 {
+			excused = true
+			w.stats.probe("transfer_target_election_without_prevote")
+		}
+		is.tn[i] = false
+		is.lastTerm[i] = term
+	}
 	if o.reachesQuorum(inc) {
 		is.since[i], is.armed[i] = 0, false
 		return
@@ -147,6 +160,9 @@ func (o *Oracle) checkIsolation(inc *Inc, term uint64) {
 			w.stats.probe("isolated_prevote_server_observed")
 		}
 		return
+	}
+	if term > is.termAt[i] && excused && term == is.termAt[i]+1 {
+		is.termAt[i] = term
 	}
 	if term > is.termAt[i] {
 		w.violate("C14", "C14/term-inflated-while-isolated", "%s cannot reach a quorum since %.0fms yet raised its term from %d to %d (pre-vote enabled)",
@@ -265,8 +281,13 @@ func (o *Oracle) finalNotify() {
 			}
 			prev = s
 		}
-		// a server that has just been elected may not have entered runLeader yet
-		if tr != len(inc.notes) && !(tr == len(inc.notes)+1 && isLeader) {
+		// The state change is observed at setState; the value is sent on NotifyCh a little later by
+		// the same goroutine (on entering runLeader, or in its deferred clean-up on the way out), and
+		// that send blocks, so the count can trail by one while the server is in mid-transition and
+		// never by more. One behind is only judged once the server had ample time to finish.
+		_ = isLeader
+		inTransition := tr == len(inc.notes)+1 && w.sim.Steps-inc.lastTransStep < 3000
+		if tr != len(inc.notes) && !inTransition {
 			w.violate("C18", "C18/notification-count", "%s: %d leadership transitions observed but %d values delivered on NotifyCh", inc.tag, tr, len(inc.notes))
 		} else if len(inc.notes) > 0 && tr == len(inc.notes) {
 			if last := inc.notes[len(inc.notes)-1].v; last != isLeader {
@@ -583,11 +604,14 @@ func (o *Oracle) checkRestoreReturn(c *Call, inc *Inc) {
 	if !found {
 		w.violate("C20", "C20/leader-fsm-not-restored", "%s: Restore returned nil but its FSM was never given the supplied snapshot (epoch %d)", inc.tag, epoch)
 	}
-	var base uint64
+	var base, rterm uint64
 	for _, e := range o.epochs {
 		if e.state.Epoch == epoch {
-			base = e.base
+			base, rterm = e.base, e.term
 		}
+	}
+	if base != 0 {
+		o.restoresOK = append(o.restoresOK, restoreOK{call: c, base: base, term: rterm, epoch: epoch})
 	}
 	if base == 0 {
 		w.violate("C20", "C20/no-durable-snapshot", "%s: Restore returned nil but no snapshot with the supplied content is durable", inc.tag)
@@ -613,6 +637,58 @@ func (o *Oracle) checkRestoreReturn(c *Call, inc *Inc) {
 					}
 				}
 			}
+		}
+	}
+}
+
+// checkInflightAborted (end of run): every Apply that the restoring leader had dispatched in its
+// term (its entry sits in that leader's log below the restore point) and that was not committed
+// before the restore resolves with ErrAbortedByRestore (C20: "calls that were in flight fail with
+// ErrAbortedByRestore"). Leadership is continuous within one term, so no other error can have
+// reached such a call before the restore, and the restore answers it before it returns.
+func (o *Oracle) checkInflightAborted() {
+	w := o.w
+	for _, r := range o.restoresOK {
+		dispatched := map[string]uint64{}
+		for k, e := range o.entries {
+			if e.node == r.call.Node && k.term == r.term && k.idx < r.base && e.ent.Type == raft.LogCommand {
+				dispatched[e.ent.Data] = k.idx
+			}
+		}
+		inflight := 0
+		for _, a := range w.cl.calls {
+			if a.Kind != "apply" || a.Node != r.call.Node || a.Inc != r.call.Inc || a.InvokeSeq > r.call.ReturnSeq {
+				continue
+			}
+			idx, ok := dispatched[a.Payload]
+			if !ok || a.Crashed {
+				continue
+			}
+			switch {
+			case a.ReturnSeq == 0:
+				n := w.nodes[a.Node]
+				if n.inc != nil && n.inc.n == a.Inc && n.inc.alive && !n.inc.shutdown && w.sim.Seq()-r.call.ReturnSeq > 100 {
+					v := w.violate("C20", "C20/inflight-call-not-aborted", "Apply %q (dispatched at index %d in term %d on s%d#%d) was in flight when Restore (epoch %d, restore point %d) returned nil and has never been answered",
+						a.Payload, idx, r.term, a.Node, a.Inc, r.epoch, r.base)
+					v.Facts["outcome"] = "never-answered"
+				}
+				inflight++
+			case a.Err == "":
+				// committed before the restore took effect
+			case a.ErrIs == "ErrAbortedByRestore":
+				inflight++
+			default:
+				v := w.violate("C20", "C20/inflight-call-not-aborted", "Apply %q (dispatched at index %d in term %d on s%d#%d) was in flight when Restore (epoch %d, restore point %d) returned nil but failed with %q instead of ErrAbortedByRestore",
+					a.Payload, idx, r.term, a.Node, a.Inc, r.epoch, r.base, a.Err)
+				v.Facts["outcome"] = a.ErrIs
+				inflight++
+			}
+		}
+		switch {
+		case inflight >= 2:
+			w.stats.probe("restore_with_2plus_applies_in_flight")
+		case inflight == 1:
+			w.stats.probe("restore_with_1_apply_in_flight")
 		}
 	}
 }
